@@ -35,6 +35,28 @@ import pyben
 logger = logging.getLogger(__name__)
 
 
+def _sort_keys(dct: dict) -> dict:
+    """
+    Return a copy of the dictionary with keys in bencode (raw byte) order.
+
+    Parameters
+    ----------
+    dct : dict
+        dictionary with str or bytes keys
+
+    Returns
+    -------
+    dict
+        the sorted dictionary
+    """
+
+    def raw(item):
+        key = item[0]
+        return key.encode("utf-8") if isinstance(key, str) else bytes(key)
+
+    return dict(sorted(dct.items(), key=raw))
+
+
 def filter_empty(args: dict, meta: dict, info: dict):
     """
     Remove the fields that were not used by the original file creator.
@@ -116,7 +138,10 @@ def edit_torrent(metafile: str, args: dict) -> dict:
         elif isinstance(val, list):
             meta["httpseeds"] = val
 
-    meta["info"] = info
+    meta["info"] = _sort_keys(info)
+    if "piece layers" in meta:
+        meta["piece layers"] = _sort_keys(meta["piece layers"])
+    meta = _sort_keys(meta)
     os.remove(metafile)
     pyben.dump(meta, metafile)
     return meta
